@@ -19,6 +19,7 @@ def c05(ctx: Ctx):
     if ctx.replay:
         write_ndjson(cases, [ctx.replay["violation"]["c"]])
     else:
+        ctx.tlc("MC_C05", "MC_C05.cfg", label="D decoder designs (ParamDecode) vs Wire")
         ctx.tlc("Gen_C05", "Gen_C05.cfg", label="D Wire injective + F generate cases")
         n = ctx.unquote(ctx.spec("cases.ndjson"), cases)
         log("[gen] %d cases" % n)
@@ -39,5 +40,3 @@ def c05(ctx: Ctx):
                 "constrained schema) x values x required x presence (present / absent / garbage kinds) x decoy parameter whose name extends "
                 "the parameter's; non-trivial = every case except present plain strings")
     ctx.validate("Trace_C05", "Trace_C05.cfg", logp, chunk_lines=400)
-    if os.environ.get("VERIF_DUMP"):        # debugging aid: every rejected line as written by the trace spec
-        write_ndjson(os.environ["VERIF_DUMP"], ctx.violations)
